@@ -9,9 +9,15 @@
           `_slos.py` (`_reset`, `set_circuit` path reuse, `clear_mask`, `_deploy`, `preprocess`, queries),
           `_slap.py` (`_fock_space`), `_mps.py` (`set_cutoff`, `_compile`, `_sv_diag`).
   * `St`  one `Stepper` (`_compiled_input`, `_out`, `_clear_cache`).
-  * `Si`  one `Simulator` (`_evolve` cache, `_invalidate_cache`, `init_use_mask`, `_best_n`,
-          `_evolve_cache_with_n`, generic / fast `probs_svd` paths, `evolve`).
-  * `Pr`  one `Processor` (`_simulator`, `_inputs_map`, `_source`, observers, `probs`).
+  * `Si`  one `Simulator` (`_evolve` cache with both kinds of keys, `_invalidate_cache`, `init_use_mask`,
+          `_best_n`, `_evolve_cache_with_n`, `_evolve_cache`, the mask left on the backend
+          (`use_mask` / `_clear_backend_mask`), generic / fast `probs_svd` paths, `evolve`, `evolve_svd`,
+          `probs`, `probability`, `prob_amplitude`).
+  * `Pr`  one `Processor` (`_simulator` and the selection it was built for, its precision and
+          `_simulator_precision_set`, `_inputs_map`, `_source`, the phase-noise snapshot, observers,
+          `add` / `add_herald` / `set_postselection` / `clear_postselection` / detectors /
+          `with_input` of a Fock state or of a distribution / the automatic photon filter /
+          a NoiseModel updated in place, `probs(precision)`).
 
   Values that the caches do not inspect are abstract identifiers (`Nat`): a circuit is `(m, uid)` where
   `uid` names the unitary computed by `set_circuit`; a list of mask strings is `(sid, len)`; heralds,
@@ -27,8 +33,10 @@
   the requested cut-off; `set_cutoff` recompiles), `fixes/C05-stepper-filter.diff` (photon filter is part
   of the Stepper's compiled key), `fixes/C05-simulator-mask-mode.diff` (`init_use_mask` invalidates the
   evolve cache when the mask mode changes), `fixes/C05-simulator-evolve-mask-mode.diff` (`evolve` sets the
-  mask mode itself) (`true`, the main model).  Outside the model: `fixes/C05-simulator-leftover-mask.diff`,
-  `fixes/C05-processor-precision.diff`, `fixes/C05-experiment-set-circuit.diff`.
+  mask mode itself), `fixes/C05-simulator-leftover-mask.diff` and /repo df89d90b (`probs`, `probability`,
+  `prob_amplitude`, `init_use_mask` remove the mask an earlier call left on the backend) (`true`, the main
+  model).  `fixes/C05-processor-precision.diff` and `fixes/C05-experiment-set-circuit.diff` are part of the
+  Processor model as it is (no unrepaired variant of them is kept).
 
   Not modelled (assumptions, exercised by the correspondence): the numbers themselves (exqalibur kernels,
   numpy); `FSMask`/`FSArray` contents (a mask instance is identified by `(sid, n)`, an array by
@@ -385,10 +393,21 @@ def canonSt (cfg : StCfg) : List StOp :=
 def freshSt (fixed : Bool) (cfg : StCfg) (inp : Nat) : StOut :=
   (stepSt fixed (SM.exec (stepSt fixed) initSt (canonSt cfg)) (.evolve inp)).2
 
-/-! ## Simulator -/
+/-! ## Simulator
 
-/-- ghost of an `_evolve` entry: circuit, heralds, computed under the heralds mask or not -/
-abbrev SiGhost := Nat × Nat × Bool
+  Modelled: `_evolve` (both kinds of keys: `(state, n)` written by `_evolve_cache_with_n`, bare `state` written by
+  `_evolve_cache`), `_can_use_mask`, `_n_heralds`, the mask the simulator leaves on its backend
+  (`_backend._masks_str / _mask_n`, set by `use_mask`, removed by `_clear_backend_mask`), and every public
+  query: `probs_svd` (generic / fast path), `evolve` (= `probs(StateVector)` for a superposed input),
+  `evolve_svd`, `probs(BasicState)`, `probability` and `prob_amplitude`.
+-/
+
+/-- the mask the simulator put on its backend: (heralds it was built from, photon number it is instantiated
+with); `none` = no mask -/
+abbrev BMask := Option (Nat × Nat)
+
+/-- ghost of an `_evolve` entry: circuit, mask on the backend when it was computed -/
+abbrev SiGhost := Nat × BMask
 
 structure Si where
   circ : Option Nat
@@ -396,10 +415,12 @@ structure Si where
   nHeralds : Nat           -- `_n_heralds`
   other : Nat              -- post-selection, filter, precision, keep_heralds: never cached
   canMask : Bool           -- `_can_use_mask`
-  evolve : List ((Nat × Nat) × SiGhost)      -- `_evolve`: (state, n) ↦ ghost
+  bmask : BMask            -- `_backend._masks_str`, `_backend._mask_n`
+  evolve : List ((Nat × Nat) × SiGhost)      -- `_evolve[(state, n)]`
+  bare : List (Nat × SiGhost)                -- `_evolve[state]` (written by `probs(BasicState)`)
   deriving Repr
 
-def initSi : Si := ⟨none, 0, 0, 0, false, []⟩
+def initSi : Si := ⟨none, 0, 0, 0, false, none, [], []⟩
 
 /-- one separated input component: (state identifier, photons of the whole input, own photons) -/
 abbrev SiKey := Nat × Nat × Nat
@@ -411,17 +432,28 @@ inductive SiOp
   | setOther (o : Nat)
   /-- `probs_svd`: detectors PNR or not; superposed (generic path, uses `_evolve`) or not (fast path) -/
   | probsSvd (pnr generic : Bool) (keys : List SiKey)
-  /-- `evolve` -/
+  /-- `evolve`; `probs(StateVector)` of a superposed vector -/
   | evolve (keys : List SiKey)
+  /-- `evolve_svd`: one group per state vector — does it pass the photon filter, its components.  Every
+  component is evolved (`_prepare_decomposed_input`), the vectors that pass are rebuilt from the cache -/
+  | evolveSvd (groups : List (Bool × List SiKey))
+  /-- `probs(BasicState)`: the separated components, cached under the bare state -/
+  | probs (sts : List Nat)
+  /-- `probability(BasicState, BasicState)` / `prob_amplitude(BasicState, BasicState)` for a non-vacuum input:
+  nothing cached, one backend call per separated component -/
+  | direct (sts : List Nat)
   deriving Repr
 
 inductive SiOut
   | ok
   | exc (e : String)
-  /-- the ghosts (state, circuit, heralds) of the evolved states combined into the answer, and the selection
-  settings applied.  The photon budget `n` of a key is not part of the answer: masked and unmasked evaluation
-  are assumed to agree after herald post-selection (C04). -/
-  | res (parts : List (Nat × Nat × Nat)) (heralds other : Nat)
+  /-- the (state, circuit) ghosts of the evolved states combined into the answer, and the selection settings
+  applied.  The photon budget `n` of a key is not part of the answer: masked and unmasked evaluation are
+  assumed to agree after herald post-selection (C04). -/
+  | res (parts : List (Nat × Nat)) (heralds other : Nat)
+  /-- `probability` / `prob_amplitude`: no heralding, no post-selection -/
+  | raw (parts : List (Nat × Nat))
+  /-- a part was computed under a mask that is not the one the current configuration asks for -/
   | stale
   deriving DecidableEq, Repr
 
@@ -433,36 +465,68 @@ def lookupK (k : Nat × Nat) : List ((Nat × Nat) × SiGhost) → Option SiGhost
   | [] => none
   | (k', v) :: r => if k' = k then some v else lookupK k r
 
-/-- `_evolve_cache_with_n` followed by reading the entries -/
-def evolveAll (s : Si) (c : Nat) : List SiKey → Si × List ((Nat × Nat) × SiGhost)
-  | [] => (s, [])
-  | (st, nExt, nOwn) :: r =>
-    let k := (st, bestN s.canMask s.nHeralds nExt nOwn)
-    match lookupK k s.evolve with
-    | some g =>
-      let (s1, l) := evolveAll s c r
-      (s1, (k, g) :: l)
-    | none =>
-      let g : SiGhost := (c, s.heralds, s.canMask)
-      let (s1, l) := evolveAll { s with evolve := (k, g) :: s.evolve } c r
-      (s1, (k, g) :: l)
+/-- the mask a state with budget `n` has to be evolved under: `use_mask(n)` (not called for `n = 0`) -/
+def wantM (canMask : Bool) (heralds n : Nat) : BMask :=
+  if canMask = true ∧ n ≠ 0 then some (heralds, n) else none
 
-/-- the answer if every part was computed in the current mask mode, `stale` otherwise -/
+/-- `_evolve_cache_with_n` followed by reading the entries of the flagged keys.  The code walks the keys sorted
+by `n`: a missing key with `n = 0` is computed before any `use_mask` call of this walk, i.e. under the mask
+`bm0` found on the backend when the walk starts; a missing key with `n ≠ 0` is computed after `use_mask(n)`.
+(The mask left on the backend is the one of the last missing key in the given order: the driver is given the
+keys in the order of the walk.) -/
+def evolveAllF (s : Si) (c : Nat) (bm0 : BMask) : List (Bool × SiKey) → Si × List ((Nat × Nat) × SiGhost)
+  | [] => (s, [])
+  | (fl, st, nExt, nOwn) :: r =>
+    let n := bestN s.canMask s.nHeralds nExt nOwn
+    match lookupK (st, n) s.evolve with
+    | some g =>
+      let (s1, l) := evolveAllF s c bm0 r
+      (s1, if fl then ((st, n), g) :: l else l)
+    | none =>
+      let g : SiGhost := (c, if n = 0 then bm0 else wantM s.canMask s.heralds n)
+      let (s1, l) := evolveAllF { s with evolve := ((st, n), g) :: s.evolve,
+                                         bmask := if n = 0 then s.bmask else wantM s.canMask s.heralds n } c bm0 r
+      (s1, if fl then ((st, n), g) :: l else l)
+
+def allT (keys : List SiKey) : List (Bool × SiKey) := keys.map fun k => (true, k)
+
+/-- the keys of `evolve_svd` with the flag of their vector -/
+def flagged (groups : List (Bool × List SiKey)) : List (Bool × SiKey) :=
+  groups.flatMap fun g => g.2.map fun k => (g.1, k)
+
+/-- the answer if every part was computed under the mask the current mode asks for, `stale` otherwise -/
 def siAnswer (s : Si) (parts : List ((Nat × Nat) × SiGhost)) : SiOut :=
-  if parts.all (fun p => p.2.2.2 == s.canMask) = true then
-    .res (parts.map fun p => (p.1.1, p.2.1, p.2.2.1)) s.heralds s.other
+  if parts.all (fun p => p.2.2 == wantM s.canMask s.heralds p.1.2) = true then
+    .res (parts.map fun p => (p.1.1, p.2.1)) s.heralds s.other
   else .stale
 
-/-- `init_use_mask` (the fixed code drops the cache when the mode changes) -/
+/-- `_evolve_cache` (after the mask was cleared, in the repaired code) followed by reading the entries -/
+def bareAll (s : Si) (c : Nat) : List Nat → Si × List (Nat × SiGhost)
+  | [] => (s, [])
+  | st :: r =>
+    match lookup st s.bare with
+    | some g =>
+      let (s1, l) := bareAll s c r
+      (s1, (st, g) :: l)
+    | none =>
+      let g : SiGhost := (c, s.bmask)
+      let (s1, l) := bareAll { s with bare := (st, g) :: s.bare } c r
+      (s1, (st, g) :: l)
+
+/-- `_clear_backend_mask` (repaired code only: `fixes/C05-simulator-leftover-mask.diff`) -/
+def clearB (fixed : Bool) (s : Si) : Si := if fixed then { s with bmask := none } else s
+
+/-- `init_use_mask`: the repaired code drops the cache when the mode changes and removes a mask left on the
+backend by an earlier call -/
 def initUseMask (fixed : Bool) (s : Si) (pnr : Bool) : Si :=
-  if fixed = true ∧ ((s.heralds != 0) && pnr) ≠ s.canMask then
-    { s with canMask := (s.heralds != 0) && pnr, evolve := [] }
-  else { s with canMask := (s.heralds != 0) && pnr }
+  let cm := (s.heralds != 0) && pnr
+  let s1 := if fixed = true ∧ cm ≠ s.canMask then { s with evolve := [], bare := [] } else s
+  clearB fixed { s1 with canMask := cm }
 
 def stepSi (fixed : Bool) (s : Si) : SiOp → Si × SiOut
-  | .setCircuit c => ({ s with circ := some c, evolve := [] }, .ok)
-  | .setHeralds h n => ({ s with heralds := h, nHeralds := n, evolve := [] }, .ok)
-  | .clearHeralds => ({ s with heralds := 0, nHeralds := 0, evolve := [] }, .ok)
+  | .setCircuit c => ({ s with circ := some c, evolve := [], bare := [] }, .ok)
+  | .setHeralds h n => ({ s with heralds := h, nHeralds := n, evolve := [], bare := [] }, .ok)
+  | .clearHeralds => ({ s with heralds := 0, nHeralds := 0, evolve := [], bare := [] }, .ok)
   | .setOther o => ({ s with other := o }, .ok)
   | .probsSvd pnr generic keys =>
     match s.circ with
@@ -470,20 +534,46 @@ def stepSi (fixed : Bool) (s : Si) : SiOp → Si × SiOut
     | some c =>
       let s1 := initUseMask fixed s pnr
       if generic then
-        let (s2, parts) := evolveAll s1 c keys
+        let (s2, parts) := evolveAllF s1 c s1.bmask (allT keys)
         (s2, siAnswer s2 parts)
       else
-        -- fast path: a local cache, everything is computed now
-        (s1, .res (keys.map fun k => (k.1, c, s1.heralds)) s1.heralds s1.other)
+        -- fast path: the same walk over a local cache (everything is computed now); `_evolve` is not touched
+        let (s2, parts) := evolveAllF { s1 with evolve := [] } c s1.bmask (allT keys)
+        ({ s2 with evolve := s1.evolve }, siAnswer s2 parts)
   | .evolve keys =>
     match s.circ with
     | none => (s, .exc "NoCircuit")
     | some c =>
-      -- fixed code: `evolve` sets the mask mode itself (`init_use_mask(True)`, as `evolve_svd` does);
+      -- repaired code: `evolve` sets the mask mode itself (`init_use_mask(True)`, as `evolve_svd` does);
       -- the pinned tree inherits the mode of the last `probs_svd` / `evolve_svd`
       let s1 := if fixed then initUseMask fixed s true else s
-      let (s2, parts) := evolveAll s1 c keys
+      let (s2, parts) := evolveAllF s1 c s1.bmask (allT keys)
       (s2, siAnswer s2 parts)
+  | .evolveSvd groups =>
+    match s.circ with
+    | none => (s, .exc "NoCircuit")
+    | some c =>
+      let s1 := initUseMask fixed s true
+      let (s2, parts) := evolveAllF s1 c s1.bmask (flagged groups)
+      (s2, siAnswer s2 parts)
+  | .probs sts =>
+    match s.circ with
+    | none => (s, .exc "NoCircuit")
+    | some c =>
+      let (s2, parts) := bareAll (clearB fixed s) c sts
+      (s2, if parts.all (fun p => p.2.2 == none) = true then
+             .res (parts.map fun p => (p.1, p.2.1)) s2.heralds s2.other
+           else .stale)
+  | .direct sts =>
+    match s.circ with
+    | none => (s, .exc "NoCircuit")
+    | some c =>
+      let s1 := clearB fixed s
+      (s1, if s1.bmask = none then .raw (sts.map fun st => (st, c)) else .stale)
+
+def SiOp.isQuery : SiOp → Bool
+  | .probsSvd .. | .evolve _ | .evolveSvd _ | .probs _ | .direct _ => true
+  | _ => false
 
 structure SiCfg where
   circ : Option Nat
@@ -498,75 +588,232 @@ def canonSi (cfg : SiCfg) : List SiOp :=
   [.setOther cfg.other, .setHeralds cfg.heralds cfg.nHeralds] ++
   (match cfg.circ with | some c => [SiOp.setCircuit c] | none => [])
 
-/-- the two kinds of query -/
+/-- what a freshly constructed simulator, given only the configuration, answers to the query `q` -/
 def freshSi (fixed : Bool) (cfg : SiCfg) (q : SiOp) : SiOut :=
   (stepSi fixed (SM.exec (stepSi fixed) initSi (canonSi cfg)) q).2
 
 def specSi (cfg : SiCfg) (keys : List SiKey) : SiOut :=
   match cfg.circ with
   | none => .exc "NoCircuit"
-  | some c => .res (keys.map fun k => (k.1, c, cfg.heralds)) cfg.heralds cfg.other
+  | some c => .res (keys.map fun k => (k.1, c)) cfg.heralds cfg.other
 
-/-! ## Processor -/
+/-- the components of the vectors of an `evolve_svd` input that pass the photon filter -/
+def usedKeys (groups : List (Bool × List SiKey)) : List SiKey :=
+  ((flagged groups).filter (·.1)).map (·.2)
+
+/-- closed form of every query in terms of the configuration only -/
+def specSiQ (cfg : SiCfg) : SiOp → SiOut
+  | .probsSvd _ _ keys => specSi cfg keys
+  | .evolve keys => specSi cfg keys
+  | .evolveSvd groups => specSi cfg (usedKeys groups)
+  | .probs sts =>
+    match cfg.circ with
+    | none => .exc "NoCircuit"
+    | some c => .res (sts.map fun st => (st, c)) cfg.heralds cfg.other
+  | .direct sts =>
+    match cfg.circ with
+    | none => .exc "NoCircuit"
+    | some c => .raw (sts.map fun st => (st, c))
+  | _ => .ok
+
+/-! ## Processor
+
+  Modelled: the kept simulator (`_simulator`: built by `SimulatorFactory.build` from the heralds and the
+  post-selection of that moment, with the default precision; on later calls only the circuit and the photon
+  filter are given again, the detectors are passed at every call), `_simulator_precision_set`, `_source`,
+  `_inputs_map`, the phase noise snapshot of `Experiment.noise`, the merged `_input_state` of
+  `with_input(BasicState)` (the heralds of that moment are written into it), `with_input` of a distribution
+  (`SVDistribution` / `StateVector`: the source is bypassed, `_noise_changed_observer` keeps `_inputs_map`),
+  the automatic photon filter of `check_min_detected_photons_filter` (stored as if the user had set it), and a
+  `NoiseModel` object updated in place while the processor holds it (`held` — nothing in the code reads it
+  before it is assigned again).
+-/
+
+inductive InKind | bs | svd
+  deriving DecidableEq, Repr
+
+/-- the values of a noise model: identifier, and whether the source built from them is perfect -/
+abbrev NoiseV := Nat × Bool
+
+/-- `_input_state` -/
+structure PrIn where
+  kind : InKind
+  id : Nat          -- the state / distribution the user gave
+  n : Nat           -- photons the user gave on the modes of interest (bs)
+  her : Nat         -- heralds written into the merged state (bs; 0 for a distribution)
+  nHer : Nat        -- their photons
+  deriving DecidableEq, Repr
+
+/-- ghost of `_simulator` -/
+structure SimG where
+  her : Nat
+  ps : Nat
+  prec : Option Nat       -- `none` = the default precision
+  deriving DecidableEq, Repr
 
 structure Pr where
   comps : Nat                      -- components and parameter values (re-read at every `probs`)
-  sel : Nat                        -- heralds, post-selection, detectors' modes, component kinds
-  noise : Nat                      -- noise model identifier
-  input : Option Nat               -- input state identifier
-  filt : Option Nat                -- `min_photons_filter`
-  source : Nat                     -- ghost of `_source`: noise it was built from
-  inputsMap : Option (Nat × Nat)   -- ghost of `_inputs_map`: (noise, input)
-  sim : Option Nat                 -- ghost of `_simulator`: `sel` it was built for
+  her : Nat                        -- heralds (identifier, 0 = none)
+  nHer : Nat                       -- photons they expect
+  ps : Nat                         -- post-selection (0 = none)
+  det : Nat                        -- detectors (passed at every `probs`)
+  held : NoiseV                    -- what the held NoiseModel object shows now (`processor.noise`)
+  noise : NoiseV                   -- its values when it was assigned (ghost of `_phase_noise`)
+  source : NoiseV                  -- ghost of `_source`
+  input : Option PrIn
+  filtUser : Option Nat            -- ghost: the filter the user asked for
+  filt : Option Nat                -- `_min_detected_photons_filter`
+  auto : Bool                      -- ghost: the stored filter was written by the automatic rule
+  inputsMap : Option (Option Nat × PrIn)   -- ghost of `_inputs_map`: noise of the source that generated it
+                                           -- (`none`: a distribution given by the user), input
+  sim : Option SimG
+  precSet : Bool                   -- `_simulator_precision_set`
   deriving Repr
 
-def initPr : Pr := ⟨0, 0, 0, none, none, 0, none, none⟩
+def initPr : Pr :=
+  { comps := 0, her := 0, nHer := 0, ps := 0, det := 0, held := (0, true), noise := (0, true),
+    source := (0, true), input := none, filtUser := none, filt := none, auto := false, inputsMap := none,
+    sim := none, precSet := false }
 
 inductive PrOp
-  | setComps (c : Nat)             -- parameter change, `Experiment.set_circuit`: no observer fires
-  | addComp (c sel : Nat)          -- `add`, `add_herald`, `set_postselection`, `clear_postselection`
-  | setNoise (n : Nat)
-  | withInput (i : Nat)
+  | setComps (c : Nat)             -- parameter change: no observer fires
+  | addComp (c : Nat)              -- `add` of a component, `set_circuit`: `_circuit_changed`
+  | addDet (d : Nat)               -- `add` of a detector
+  | addHerald (h n : Nat)          -- `add_herald`: the new heralds and their photons
+  | setPs (p : Nat)                -- `set_postselection`
+  | clearPs                        -- `clear_postselection` (notifies only if there was one)
+  | setNoise (v : NoiseV)          -- `processor.noise = nm`
+  | mutateNoise (v : NoiseV)       -- `nm.set_value(…)` on the held object, the processor is not told
+  | withInput (k : InKind) (i n : Nat)
   | setFilter (k : Nat)
-  | probs
+  | probs (prec : Option Nat)
   deriving Repr
+
+/-- which configuration the returned numbers belong to -/
+structure PrAns where
+  comps : Nat
+  her : Nat
+  ps : Nat
+  det : Nat
+  phase : Nat            -- noise the phase quantisation was taken from
+  src : Option Nat       -- noise the input distribution was generated from (`none`: given by the user)
+  kind : InKind
+  inp : Nat
+  herIn : Nat            -- heralds written into the input
+  filt : Nat
+  prec : Option Nat
+  deriving DecidableEq, Repr
 
 inductive PrOut
   | ok
   | exc (e : String)
-  | res (comps sel noise inp filt : Nat)
+  | res (a : PrAns)
   deriving DecidableEq, Repr
 
-def stepPr (s : Pr) : PrOp → Pr × PrOut
+/-- `_generate_noisy_input` / `_inputs_map = input_state` -/
+def genMap (src : NoiseV) (i : PrIn) : Option Nat × PrIn :=
+  (if i.kind = .bs then some src.1 else none, i)
+
+/-- `check_min_detected_photons_filter`: the stored value, else the automatic one (perfect source, Fock state
+input: `n` photons), else nothing (`ValueError`) -/
+def autoFilter (filt : Option Nat) (perfect : Bool) (k : InKind) (n : Nat) : Option Nat :=
+  match filt with
+  | some f => some f
+  | none => if perfect = true ∧ k = InKind.bs then some n else none
+
+/-- the automatic value counts the photons of the merged input minus the photons of the current heralds -/
+def effFilter (s : Pr) (i : PrIn) : Option Nat :=
+  autoFilter s.filt s.source.2 i.kind (i.n + i.nHer - s.nHer)
+
+/-- `set_precision(precision)` when one is given -/
+def SimG.withPrec (g : SimG) : Option Nat → SimG
+  | some p => { g with prec := some p }
+  | none => g
+
+/-- the simulator `probs(precision)` uses: the kept one — dropped first when the previous call changed its
+precision and this one gives none — or a new one built for the current heralds and post-selection -/
+def simFor (s : Pr) (prec : Option Nat) : SimG :=
+  ((if prec = none ∧ s.precSet = true then none else s.sim).getD ⟨s.her, s.ps, none⟩).withPrec prec
+
+/-- `persist = true`: the code as it is (the automatic filter is stored by `min_detected_photons_filter`);
+`false`: a repair in which it is recomputed at every call (no such repair exists in the tree:
+tests/test_processor.py::test_processor_samples relies on the stored value) -/
+def stepPr (persist : Bool) (s : Pr) : PrOp → Pr × PrOut
   | .setComps c => ({ s with comps := c }, .ok)
-  | .addComp c sel => ({ s with comps := c, sel := sel, sim := none }, .ok)
-  | .setNoise n => ({ s with noise := n, source := n, inputsMap := none }, .ok)
-  | .withInput i => ({ s with input := some i, inputsMap := some (s.source, i) }, .ok)
-  | .setFilter k => ({ s with filt := some k }, .ok)
-  | .probs =>
-    match s.input, s.filt with
-    | some i, some f =>
-      let g := s.sim.getD s.sel
-      let im := s.inputsMap.getD (s.source, i)
-      ({ s with sim := some g, inputsMap := some im }, .res s.comps g im.1 im.2 f)
-    | _, _ => (s, .exc "NotConfigured")
+  | .addComp c => ({ s with comps := c, sim := none }, .ok)
+  | .addDet d => ({ s with det := d, sim := none }, .ok)
+  | .addHerald h n => ({ s with her := h, nHer := n, sim := none }, .ok)
+  | .setPs p => ({ s with ps := p, sim := none }, .ok)
+  | .clearPs => (if s.ps = 0 then s else { s with ps := 0, sim := none }, .ok)
+  | .setNoise v =>
+    ({ s with held := v, noise := v, source := v,
+              inputsMap := match s.input with
+                | some i => if i.kind = .svd then s.inputsMap else none
+                | none => none }, .ok)
+  | .mutateNoise v => ({ s with held := v }, .ok)
+  | .withInput k i n =>
+    let inp : PrIn := ⟨k, i, n, if k = .bs then s.her else 0, if k = .bs then s.nHer else 0⟩
+    ({ s with input := some inp, inputsMap := some (genMap s.source inp) }, .ok)
+  | .setFilter k => ({ s with filtUser := some k, filt := some k, auto := false }, .ok)
+  | .probs prec =>
+    match s.input with
+    | none => (s, .exc "NotConfigured")
+    | some i =>
+      match effFilter s i with
+      | none => (s, .exc "ValueError")
+      | some f =>
+        let g := simFor s prec
+        let im := s.inputsMap.getD (genMap s.source i)
+        ({ s with filt := if persist then some f else s.filt,
+                  auto := if persist then (s.auto || s.filt.isNone) else s.auto,
+                  sim := some g, inputsMap := some im, precSet := prec.isSome },
+         .res ⟨s.comps, g.her, g.ps, s.det, s.noise.1, im.1, im.2.kind, im.2.id, im.2.her, f, g.prec⟩)
 
 structure PrCfg where
   comps : Nat
-  sel : Nat
-  noise : Nat
-  input : Option Nat
+  her : Nat
+  nHer : Nat
+  ps : Nat
+  det : Nat
+  noise : NoiseV
+  input : Option (InKind × Nat × Nat)
   filt : Option Nat
   deriving DecidableEq, Repr
 
-def Pr.config (s : Pr) : PrCfg := ⟨s.comps, s.sel, s.noise, s.input, s.filt⟩
+/-- what the user set last (the noise: the values at the last assignment) -/
+def Pr.config (s : Pr) : PrCfg :=
+  ⟨s.comps, s.her, s.nHer, s.ps, s.det, s.noise, s.input.map fun i => (i.kind, i.id, i.n), s.filtUser⟩
+
+/-- the same with the values the held NoiseModel object shows now -/
+def Pr.shown (s : Pr) : PrCfg := { s.config with noise := s.held }
+
+/-- the held NoiseModel was updated in place and not assigned again -/
+def Pr.dirty (s : Pr) : Prop := s.held ≠ s.noise
+
+/-- the Fock-state input was given after the last `add_herald` (a processor whose heralds changed expects an
+input of another length: the old one cannot be given to a fresh processor at all) -/
+def Pr.inputCurrent (s : Pr) : Prop :=
+  ∀ i, s.input = some i → i.her = (if i.kind = .bs then s.her else 0) ∧ i.nHer = (if i.kind = .bs then s.nHer else 0)
 
 def canonPr (cfg : PrCfg) : List PrOp :=
-  [.addComp cfg.comps cfg.sel, .setNoise cfg.noise] ++
+  [.addComp cfg.comps, .addHerald cfg.her cfg.nHer] ++
+  (if cfg.ps = 0 then [] else [PrOp.setPs cfg.ps]) ++
+  [.addDet cfg.det, .setNoise cfg.noise] ++
   (match cfg.filt with | some k => [PrOp.setFilter k] | none => []) ++
-  (match cfg.input with | some i => [PrOp.withInput i] | none => [])
+  (match cfg.input with | some (k, i, n) => [PrOp.withInput k i n] | none => [])
 
-def freshPr (cfg : PrCfg) : PrOut :=
-  (stepPr (SM.exec stepPr initPr (canonPr cfg)) .probs).2
+def freshPr (persist : Bool) (cfg : PrCfg) (prec : Option Nat) : PrOut :=
+  (stepPr persist (SM.exec (stepPr persist) initPr (canonPr cfg)) (.probs prec)).2
+
+/-- closed form of `probs(precision)` in terms of the configuration only -/
+def specPr (cfg : PrCfg) (prec : Option Nat) : PrOut :=
+  match cfg.input with
+  | none => .exc "NotConfigured"
+  | some (k, i, n) =>
+    match autoFilter cfg.filt cfg.noise.2 k n with
+    | none => .exc "ValueError"
+    | some f =>
+      .res ⟨cfg.comps, cfg.her, cfg.ps, cfg.det, cfg.noise.1, if k = InKind.bs then some cfg.noise.1 else none, k, i,
+            if k = InKind.bs then cfg.her else 0, f, prec⟩
 
 end PM.C05
